@@ -5,11 +5,11 @@ rows = []
 for p in sorted(glob.glob(os.path.join(V, 'seeded', '*', 'meta.json'))):
     d = json.load(open(p))
     res = d.get('result', '')
-    short = 'caught' if res.upper().startswith('CAUGHT') else ('missed→caught' if 'CAUGHT after' in res or 'CAUGHT (first' in res else ('missed' if res.upper().startswith('MISSED') and 'CAUGHT' not in res else ('missed→caught' if 'CAUGHT' in res else 'pending')))
+    short = d.get('outcome', 'pending')
     rows.append('| %s | %s | %s | %s | %s |' % (d['id'], d.get('property', ''), d.get('change', '').replace('|', '/'), short, (d.get('by') or res).replace('|', '/')[:260]))
 tbl = '| seed | prop | change | outcome | deciding obligation / reason |\n|---|---|---|---|---|\n' + '\n'.join(rows)
-n = len(rows); c = sum(1 for r in rows if '| caught |' in r); mc = sum(1 for r in rows if 'missed→caught' in r); m = sum(1 for r in rows if '| missed |' in r)
-tbl += '\n\n%d seeded changes: %d caught by the checks as they were, %d missed at first and caught after strengthening, %d missed (reasons above), %d pending.' % (n, c, mc, m, n - c - mc - m)
+n = len(rows); c = sum(1 for r in rows if '| caught |' in r); mc = sum(1 for r in rows if '| missed_then_caught |' in r); uc = sum(1 for r in rows if '| undecided_then_caught |' in r); m = sum(1 for r in rows if '| missed |' in r)
+tbl += '\n\n%d seeded changes: %d caught by the checks as they were; %d first reported UNDECIDED (exit 2) and caught after a machinery fix (rlimit retry, brittle anchor removed); %d missed at first and caught after strengthening the contracts; %d missed (reasons above); %d pending.' % (n, c, uc, mc, m, n - c - mc - uc - m)
 p = os.path.join(V, 'DESIGN.md')
 s = open(p).read()
 s = re.sub(r'<!-- SEEDTABLE -->.*?<!-- /SEEDTABLE -->', '<!-- SEEDTABLE -->\n' + tbl + '\n<!-- /SEEDTABLE -->', s, flags=re.S)
